@@ -1,15 +1,16 @@
 (* C11 — property theorems.  Only statements closed by [exact]; proofs live in Seal/*.v. *)
 From Coq Require Import List String ZArith Bool.
-From NV Require Import Seal.Syntax Seal.Eval Seal.TableTypes Seal.TableCheck Seal.Guard.
+From NV Require Import Seal.Syntax Seal.Eval Seal.TableTypes Seal.TableCheck Seal.Guard Seal.Typing
+     Seal.LogRel Seal.Fundamental Seal.Erasure Seal.Tail Seal.Keys Seal.Variants.
 Import ListNotations.
 Open Scope string_scope.
 
-(* T0, translator-tied: the table observed on the real interpreter (Gen/SealTable.v, regenerated on
+(* ---- T0, translator-tied: the table observed on the real interpreter (Gen/SealTable.v, regenerated on
    every run from the primop enums of core/src/term/mod.rs) *)
 Theorem C11_seal_guard_generated : seal_guard_statement.
 Proof. exact seal_guard_generated. Qed.
 
-(* T0: a sealed value in a strict position of any eliminator other than unseal-with-its-key / seq *)
+(* ---- T0: a sealed value in a strict position of any eliminator other than unseal-with-its-key / seq *)
 Theorem C11_inspect_blames :
   forall n r e k t l F,
     eval cfg_real n r e = Ok (VSealed k t l) ->
@@ -48,3 +49,117 @@ Proof. exact seq_sees_through. Qed.
 Theorem C11_export_sealed_blames :
   forall ev m k t l, deep ev (S m) (VSealed k t l) = Err (Blame (lpol l)).
 Proof. exact export_sealed_blames. Qed.
+
+(* ---- T0: parametric_erasure.
+   Full statement (both directions of the seal-erasure relation); type-checked, not proved: *)
+Definition C11_full_parametric_erasure : Prop :=
+  forall x e T k l0 U d0 t,
+    passes_only x e T -> is_svar U = false -> lift (OR d0 U) t t ->
+    let sealed := Th [(x, Th [("%v", t)] (SealT k l0 (Var "%v")))] e in
+    let bare := Th [(x, t)] e in
+    lift (OR (fun _ => MkInt k (OR d0 U)) T) sealed bare
+    /\ (forall n r1, force cfg_real n sealed = r1 -> r1 <> OutOfFuel ->
+          exists m r2, force cfg_real m bare = r2 /\ OR (fun _ => MkInt k (OR d0 U)) T r1 r2).
+
+(* Proved: the direction "whatever the bare run produces, the sealed run produces a related outcome"
+   (no spurious blame, same results), for every term accepted by the syntactic criterion. *)
+Theorem C11_parametric_erasure_partial :
+  forall x e T k l0 U d0 t,
+    passes_only x e T -> is_svar U = false -> lift (OR d0 U) t t ->
+    lift (OR (fun _ => MkInt k (OR d0 U)) T)
+         (Th [(x, Th [("%v", t)] (SealT k l0 (Var "%v")))] e)
+         (Th [(x, t)] e).
+Proof. exact parametric_erasure. Qed.
+
+Theorem C11_fundamental :
+  forall d e, wf_int d ->
+    forall G T, has_ty G e T -> forall p1 p2, env_rel d G p1 p2 -> lift (OR d T) (Th p1 e) (Th p2 e).
+Proof. exact fundamental. Qed.
+
+Theorem C11_parametric_transparent :
+  forall nv keys sg d0 T f p,
+    scoped nv T -> (forall i, is_svar (sg i) = false) -> has_ty [] f T ->
+    lift (OR d0 (inst sg T))
+         (Th p (Chk (foralls (var_keys keys nv) (sty_ctr keys T)) lbl0 f))
+         (Th p f).
+Proof. exact parametric_transparent. Qed.
+
+Theorem C11_parametric_same_result :
+  forall nv keys sg a b f arg p,
+    scoped nv (SFun a b) -> (forall i, is_svar (sg i) = false) ->
+    has_ty [] f (SFun a b) -> has_ty [] arg (inst sg a) -> is_base (inst sg b) = true ->
+    forall n r, eval cfg_real n p (App f arg) = r -> r <> OutOfFuel ->
+      exists m, eval cfg_real m p (App (Chk (foralls (var_keys keys nv) (sty_ctr keys (SFun a b))) lbl0 f) arg) = r.
+Proof. exact parametric_same_result. Qed.
+
+Theorem C11_parametric_annotation_same_result2 :
+  forall sg a1 a2 b f arg1 arg2 p,
+    scoped 2 (SFun a1 (SFun a2 b)) -> (forall i, is_svar (sg i) = false) ->
+    has_ty [] f (SFun a1 (SFun a2 b)) -> has_ty [] arg1 (inst sg a1) -> has_ty [] arg2 (inst sg a2) ->
+    is_base (inst sg b) = true ->
+    forall n r, eval cfg_real n p (App (App f arg1) arg2) = r -> r <> OutOfFuel ->
+      exists m, eval cfg_real m p
+                  (App (App (Ann (TForall "a" KType (TForall "b" KType (sty_ty names2 (SFun a1 (SFun a2 b))))) f) arg1) arg2) = r.
+Proof. exact parametric_annotation_same_result2. Qed.
+
+(* ---- T1: record-row tails *)
+Theorem C11_tail_guarded :
+  forall n r e fs k l tfs t o,
+    eval cfg_real n r e = Ok (VRec fs (RSeal k l tfs t)) ->
+    touches_tail o fs tfs ->
+    eval cfg_real (S n) r (tail_op_tm o e) = Err Syntax.TailAccess.
+Proof. exact tail_guarded. Qed.
+
+Theorem C11_tail_sealed :
+  forall cf fs k excl l vfs vt p,
+    lookup_tyvar k (ltenv l) = Some p -> p <> lpol l ->
+    (forall x c, In (x, c) fs -> mem x vfs = true) ->
+    (forall x t, In (x, t) (extra_of fs vfs) -> mem_str x excl = false) ->
+    chk_record cf fs (CTVar k excl) l (VRec vfs vt)
+    = Ok (VRec (center_of fs l vfs) (RSeal k (flip l) (extra_of fs vfs) vt)).
+Proof. exact tail_sealed. Qed.
+
+Theorem C11_tail_preserved :
+  forall cf fs k excl l vfs l0 tfs vt,
+    lookup_tyvar k (ltenv l) = Some (lpol l) ->
+    (forall x c, In (x, c) fs -> mem x vfs = true) ->
+    extra_of fs vfs = [] ->
+    chk_record cf fs (CTVar k excl) l (VRec vfs (RSeal k l0 tfs vt))
+    = Ok (VRec (extend_fields (center_of fs l vfs) tfs) vt).
+Proof. exact tail_unsealed. Qed.
+
+Theorem C11_tail_tampered_blames :
+  forall cf fs k excl l vfs vt,
+    lookup_tyvar k (ltenv l) = Some (lpol l) ->
+    (forall x c, In (x, c) fs -> mem x vfs = true) ->
+    (extra_of fs vfs <> [] \/ vt = RNone \/ (exists k' l0 tfs vt', vt = RSeal k' l0 tfs vt' /\ k' <> k)) ->
+    chk_record cf fs (CTVar k excl) l (VRec vfs vt) = Err (Blame (lpol l)).
+Proof. exact tail_tampered_blames. Qed.
+
+Theorem C11_excluded_field_blames :
+  forall cf fs k excl l vfs vt p x t,
+    lookup_tyvar k (ltenv l) = Some p -> p <> lpol l ->
+    (forall y c, In (y, c) fs -> mem y vfs = true) ->
+    In (x, t) (extra_of fs vfs) -> mem_str x excl = true ->
+    chk_record cf fs (CTVar k excl) l (VRec vfs vt) = Err (Blame (lpol l)).
+Proof. exact excluded_field_blames. Qed.
+
+(* ---- T2: nested / higher-rank quantifiers of one contract have pairwise distinct keys *)
+Theorem C11_nested_foralls_have_distinct_keys :
+  forall t, alias_free t -> NoDup (fkeys (contract_of t)).
+Proof. exact nested_foralls_have_distinct_keys. Qed.
+
+(* ---- deliberately unsound variants, and the two known findings about key freshness *)
+Theorem C11_noflip_variant_refuted : ~ enforces (MkCfg false true).
+Proof. exact noflip_variant_refuted. Qed.
+
+Theorem C11_seethrough_variant_refuted : ~ enforces (MkCfg true false).
+Proof. exact seethrough_variant_refuted. Qed.
+
+Theorem C11_cross_contract_keys_refuted :
+  eval cfg_real 30 [] launder = Ok (VNum 2) /\ ~ blamed_outcome (eval cfg_real 30 [] launder).
+Proof. exact cross_contract_keys_refuted. Qed.
+
+Theorem C11_per_instantiation_keys_refuted :
+  eval cfg_real 40 [] two_calls = Ok (VNum 1) /\ ~ blamed_outcome (eval cfg_real 40 [] two_calls).
+Proof. exact per_instantiation_keys_refuted. Qed.
